@@ -11,6 +11,8 @@ import os
 from .. import common, observe
 from ..common import ToolError
 
+from .. import compose
+
 NEEDS = ["driver"]
 
 
@@ -219,9 +221,12 @@ def run(chk):
     chk.extra["trace_events"] = len(events)
     for e, m in zip(events, meta):
         chk.judged((m[0], "t", str(m[3]), m[2]))
+    compose.run(chk, "wires")
 
 
 def replay(chk, rec):
+    if "compose" in rec.get("case", {}):
+        return compose.replay(chk, rec, "wires")
     c = rec["case"]
     variants = [tuple(v) for v in c["variants"]]
     silent = common.Check(chk.pid, chk.tier, chk.seed)
